@@ -183,7 +183,7 @@ class LedgerDomain(Domain):
         key = 'break@loop%d' % ordinal
         if key in con.asserts:
             # ordinal of this break among the breaks of the loop (source order)
-            brks = sorted([n for n in ast.walk(loop) if isinstance(n, ast.Break)], key=lambda n: n.lineno)
+            brks = sorted(own_breaks(loop), key=lambda n: n.lineno)
             k = [n.lineno for n in brks].index(line) + 1 if line in [n.lineno for n in brks] else 0
             for c in con.asserts[key]:
                 v = eng.eval_clause(c, st, frame.old)
